@@ -41,7 +41,8 @@ def run_case(ctx, case):
         # without -string a std::string crosses the wrapper as an opaque handle the client cannot construct:
         # those libraries are generated without string types
         lib = libgen.generate(random.Random(case["libseed"]), "liba", size=case.get("size", 1.0), docs=False,
-                              strings="-string" in CONFIGS[case["cfg"]], arrays="-python" not in CONFIGS[case["cfg"]])
+                              strings="-string" in CONFIGS[case["cfg"]], arrays="-python" not in CONFIGS[case["cfg"]],
+                              ext=True)
         lib.write(d)
         model = lib.model
     cfg = CONFIGS[case["cfg"]]
